@@ -161,7 +161,7 @@ theorem rangeElems_length (lo hi : Int) :
   split <;> split <;> simp <;> omega
 
 /-- `lengthV` never yields a negative length -/
-theorem lengthV_nonneg {v : Val} {n : Int} (h : lengthV v = .ok n) : 0 ≤ n := by
+theorem lengthV_nonneg_inv {v : Val} {n : Int} (h : lengthV v = .ok n) : 0 ≤ n := by
   unfold lengthV at h
   split at h <;> simp at h <;> omega
 
@@ -287,7 +287,7 @@ theorem tr_builtin2 {m name a b} (ha : Tr c.budget (eval c ctx a) T)
     | inl acc =>
       refine Tr.bindT (Tr.allocAfter ?_) fun _ => Tr.pure trivial
       have h1 := hr acc rfl
-      have h2 := lengthV_nonneg hn
+      have h2 := lengthV_nonneg_inv hn
       omega
     | inr v => exact Tr.pure trivial
 
